@@ -97,9 +97,6 @@ func Settle() bool {
 				busy = true
 				break
 			}
-			if !bytes.Contains(g, []byte("github.com/bluenviron/gortsplib/v5")) {
-				continue
-			}
 			if bytes.Contains(g, []byte("verif/internal/sysx.Settle")) {
 				continue // the caller itself
 			}
@@ -113,10 +110,22 @@ func Settle() bool {
 				continue
 			}
 			state := string(head[lb+1 : rb])
+			// ANY goroutine that is running or about to run counts, not only those with library frames: a
+			// harness goroutine that was just started to call into the library (its stack shows no library
+			// frame yet), a timer callback of the virtual clock or a deadline helper of the network is about
+			// to wake library goroutines. (Ignoring them let the virtual clock creep forward by a second now
+			// and then while a call was only about to begin - enough, once in a thousand runs, to expire a
+			// 5 s read deadline.)
 			for _, b := range busyStates {
 				if strings.HasPrefix(state, b) {
 					busy = true
 				}
+			}
+			if busy {
+				break
+			}
+			if !bytes.Contains(g, []byte("github.com/bluenviron/gortsplib/v5")) {
+				continue
 			}
 			// waiting for a mutex is not quiescence: the goroutine is in the middle of something and
 			// continues as soon as the (briefly held) lock is released
